@@ -79,6 +79,15 @@ func newCertKit(t *testing.T, dir string) *certKit {
 	both := []x509.ExtKeyUsage{x509.ExtKeyUsageClientAuth, x509.ExtKeyUsageServerAuth}
 	ca1, ca1Key, ca1DER := mkCA("configured-ca")
 	ca2, ca2Key, ca2DER := mkCA("foreign-ca")
+	// the HOST's trust store (what x509.SystemCertPool() returns in this process): one CA that is not the configured one.
+	// Must be in place before anything asks for the system pool (it is loaded once per process).
+	ca3, ca3Key, ca3DER := mkCA("host-trusted-ca")
+	hostStore := filepath.Join(dir, "host-trust-store.pem")
+	pemWrite(t, hostStore, "CERTIFICATE", ca3DER)
+	emptyDir := filepath.Join(dir, "host-trust-dir")
+	_ = os.MkdirAll(emptyDir, 0o700)
+	os.Setenv("SSL_CERT_FILE", hostStore)
+	os.Setenv("SSL_CERT_DIR", emptyDir)
 	k.ca1DER, k.ca2DER = ca1DER, ca2DER
 	future := time.Now().Add(12 * time.Hour)
 	k.caPool = x509.NewCertPool()
@@ -88,6 +97,7 @@ func newCertKit(t *testing.T, dir string) *certKit {
 	k.creds["selfSigned"] = mkLeaf("peer", "proxy.test", nil, nil, future, both)
 	k.creds["otherCA"] = mkLeaf("peer", "proxy.test", ca2, ca2Key, future, both)
 	k.creds["expired"] = mkLeaf("peer", "proxy.test", ca1, ca1Key, time.Now().Add(-time.Hour), both)
+	k.creds["hostTrusted"] = mkLeaf("peer", "proxy.test", ca3, ca3Key, future, both) // issued by a CA the host trusts, not by the configured CA
 	k.creds["expiredRecently"] = mkLeaf("peer", "proxy.test", ca1, ca1Key, time.Now().Add(-90*time.Second), both) // inside any "clock skew tolerance"
 	k.creds["wrongUsage.client"] = mkLeaf("peer", "proxy.test", ca1, ca1Key, future, []x509.ExtKeyUsage{x509.ExtKeyUsageServerAuth})
 	k.creds["wrongUsage.server"] = mkLeaf("peer", "proxy.test", ca1, ca1Key, future, []x509.ExtKeyUsage{x509.ExtKeyUsageClientAuth})
@@ -243,7 +253,7 @@ func TestC19(t *testing.T) {
 	dir := filepath.Join(e.Out, "certs")
 	_ = os.MkdirAll(dir, 0o700)
 	k := newCertKit(t, dir)
-	creds := []string{"validChain", "wrongName", "selfSigned", "otherCA", "expired", "expiredRecently", "wrongUsage", "borrowedChain", "validPlusCA", "none"}
+	creds := []string{"validChain", "wrongName", "selfSigned", "otherCA", "expired", "expiredRecently", "hostTrusted", "wrongUsage", "borrowedChain", "validPlusCA", "none"}
 	var cases []tlsCase
 	for _, hc := range []bool{true, false} {
 		for _, sn := range []bool{true, false} {
@@ -306,7 +316,7 @@ func TestC19(t *testing.T) {
 				e.Evals++
 				e.Distinct(fnv(op))
 				e.Count("client_" + cred + "_" + got)
-				if !c.skip && got == "admit" && cred != "validChain" && cred != "validPlusCA" {
+				if !c.skip && got == "admit" && cred != "validChain" && cred != "validPlusCA" && !(cred == "hostTrusted" && c.caFile == "unset") {
 					viol(fmt.Sprintf("client with CA verification configured (%s) accepted a %s server", c.String(), cred), op)
 				}
 			}
